@@ -1,0 +1,32 @@
+//go:build verif
+
+package coordinator
+
+import (
+	"time"
+
+	"github.com/openGemini/openGemini/lib/errno"
+	"github.com/openGemini/openGemini/lib/logger"
+	meta2 "github.com/openGemini/openGemini/lib/util/lifted/influx/meta"
+	"github.com/openGemini/openGemini/lib/util/lifted/vm/protoparser/influx"
+)
+
+// VerifC11StreamRouter lets the C11 verification harness call the routing step of stream results
+// (Stream.updateShardGroupAndShardKey: shard key from the destination measurement's key or the stream's dimensions).
+// Thin wrapper, no behaviour.
+type VerifC11StreamRouter struct {
+	s   *Stream
+	ctx *streamCtx
+}
+
+func VerifC11NewStreamRouter(mc PWMetaClient, db *meta2.DatabaseInfo, ms *meta2.MeasurementInfo) *VerifC11StreamRouter {
+	pw := NewPointsWriter(time.Second)
+	pw.MetaClient = mc
+	s := NewStream(nil, mc, logger.NewLogger(errno.ModuleCoordinator), time.Second)
+	ctx := &streamCtx{db: db, ms: ms, writeHelper: newWriteHelper(pw)}
+	return &VerifC11StreamRouter{s: s, ctx: ctx}
+}
+
+func (r *VerifC11StreamRouter) Route(database, retentionPolicy string, row *influx.Row, dims []string) (err error, sh *meta2.ShardInfo, partialErr error) {
+	return r.s.updateShardGroupAndShardKey(database, retentionPolicy, row, r.ctx, dims)
+}
